@@ -220,6 +220,9 @@ class BaseTuner(stateful.Stateful):
             return
 
         self.on_search_begin()
+        # Make the project resumable from the first trial on: without the
+        # tuner file a restart would not reload the oracle.
+        self.save()
         while True:
             self.pre_create_trial()
             trial = self.oracle.create_trial(self.tuner_id)
